@@ -42,7 +42,10 @@ theorem measure_finish (s : State) (c : Nat) (cs : ChainSt) (dep wd : List (Nat 
     measure (finish s c cs dep wd) g = measure s g - chainInFlight g (s.chains c) + chainInFlight g cs
       - tokensValue g dep + tokensValue g wd := by
   have h1 := inFlight_setChain s c cs g hc
-  have h2 : inFlight (finish s c cs dep wd) g = inFlight (setChain s c cs) g := rfl
+  have h2 : inFlight (finish s c cs dep wd) g = inFlight (setChain s c cs) g := by
+    have e : ∀ c', chainInFlight g ((finish s c cs dep wd).chains c') = chainInFlight g ((setChain s c cs).chains c') := by
+      intro c'; simp only [finish, setChain]; split <;> rfl
+    simp only [inFlight, e]
   simp only [measure, h2, h1]
   simp only [finish, bumpAll_val, setChain]
   push_cast
@@ -178,6 +181,8 @@ theorem measure_deposit (cfg : Cfg) (s s' : State) (c g u n : Nat) (toErc : Bool
   | none => simp [hk] at h
   | some k =>
     simp only [hk] at h
+    split at h
+    · cases h
     cases toErc
     · simp only [Bool.false_eq_true, ↓reduceIte] at h
       cases hr : run s (bridgeTokenToBaseCoin k g c (U u) n) with
@@ -498,6 +503,8 @@ theorem measure_bctimeout (cfg : Cfg) (s s' : State) (c nonce : Nat) (g' : Nat) 
 theorem measure_bcin (cfg : Cfg) (s s' : State) (c to : Nat) (tokens : List (Nat × Nat)) (g' : Nat) (hc : c < 3)
     (h : stepCore cfg s (.bcin c to tokens) = .ok s') : measure s' g' = measure s g' := by
   simp only [stepCore] at h; exc
+  split at h
+  · cases h
   cases h1 : tokensFlow cfg c tokens (fun k g n => bridgeTokenToBaseCoin k g c (U to) n) with
   | error e => simp [h1] at h
   | ok fl1 =>
@@ -521,6 +528,8 @@ theorem measure_bcin (cfg : Cfg) (s s' : State) (c to : Nat) (tokens : List (Nat
 theorem measure_bcinfail (cfg : Cfg) (s s' : State) (c r : Nat) (tokens : List (Nat × Nat)) (g' : Nat) (hc : c < 3)
     (h : stepCore cfg s (.bcinfail c r tokens) = .ok s') : measure s' g' = measure s g' := by
   simp only [stepCore] at h; exc
+  split at h
+  · cases h
   cases h1 : tokensFlow cfg c tokens (fun k g n =>
       bridgeTokenToBaseCoin k g c badContract n ++ [.send (.base g) badContract (U r) n]) with
   | error e => simp [h1] at h
